@@ -11,11 +11,11 @@ package main
 // id, idok, idlen, at, count, bytes, n, more, v) plus a few fields only Go looks at.
 
 import (
-	"regexp"
 	"encoding/hex"
 	"fmt"
 	"math"
 	"math/big"
+	"regexp"
 	"strconv"
 	"strings"
 	"unicode"
@@ -47,7 +47,7 @@ type AEv struct {
 	MTOK  bool   `json:"mtok"`            // media type is valid UTF-8
 	CT    uint64 `json:"ct,omitempty"`    // custom type code
 	Multi bool   `json:"multi,omitempty"` // multiline comment
-	POK bool   `json:"pok"`             // payload valid: comment text expressible, time fields in range
+	POK   bool   `json:"pok"`             // payload valid: comment text expressible, time fields in range
 }
 
 func (e AEv) mtOK() bool { return e.MTOK }
